@@ -36,7 +36,7 @@ def gen(ctx):
     import math
     for i in range(ctx.n(60, 600)):
         spec = M.random_spec(rng, ["WSM", "WPM", "RatioMOORA", "FMF", "TOPSIS", "RefPointMOORA"])
-        dm = M.in_domain_dm(rng, spec, max_m=6, max_n=4, ties=0.0, dups=0.0, family="float")
+        dm = M.in_domain_dm(rng, spec, min_m=3, max_m=6, max_n=4, ties=0.0, dups=0.0, family="float")
         dm["int_matrix"] = False
         m0 = dm["matrix"]
         j = rng.randrange(len(m0[0]))
